@@ -134,13 +134,21 @@ void doStr(const std::string& s, int64_t total, Json::Value& o) {
   o["sL"] = rawSto([](const std::string& x, size_t* p) { return std::stold(x, p); }, s);
 }
 
+// one tab-separated record per string, fields in this order (vs, which echoes the input, last)
+const char* kFields[] = {"sz", "sp", "ui", "vi", "vl", "vd", "vf", "vm", "vb", "vr", "si", "sl", "su", "sf", "sd", "sL", "vs"};
+
 void doStrs(const Json::Value& sc, Json::Value& out) {
   int64_t total = std::stoll(sc.get("total", "0").asString());
   Json::Value rs(Json::arrayValue);
   for (const auto& s : sc["ss"]) {
     Json::Value o(Json::objectValue);
     doStr(s.asString(), total, o);
-    rs.append(o);
+    std::string rec;
+    for (const char* f : kFields) {
+      if (!rec.empty()) rec += '\t';
+      rec += o[f].asString();
+    }
+    rs.append(rec);
   }
   out["rs"] = rs;
 }
